@@ -37,6 +37,9 @@ type CLICase struct {
 var cliPrograms = map[string]string{
 	"find":    "find all 'ab' (maybe any) = d",
 	"replace": "replace all 'ab' with '<' value '>'",
+	// a replace command that is not the first command of its program
+	"setreplace":  "set p to pattern 'ab' maybe digit replace all p with '[' value ']'",
+	"findreplace": "find all 'no such text' find top 1 'a' replace all 'ab' with 'Y'",
 	"failing": "find all (",
 }
 
@@ -268,15 +271,15 @@ func checkCLICase(c CLICase) (sig, what string, nmatch int) {
 	if mode == "" {
 		mode = "NEW"
 	}
-	if c.Program == "replace" && mode != "NOTHING" {
+	if strings.Contains(cliPrograms[c.Program], "replace ") && mode != "NOTHING" {
 		for _, f := range fileList {
 			name, _ := filepath.Rel(dir, filepath.Clean(f))
 			content := before[name]
 			var b strings.Builder
 			last := 0
 			for _, m := range want {
-				if m.Filename != f {
-					continue
+				if m.Filename != f || !m.Replacement.HasValue() {
+					continue // another file, or a match of a find command of the program
 				}
 				b.WriteString(content[last:m.Offset.Start])
 				b.WriteString(m.Replacement.GetValueOrDefault(""))
@@ -322,7 +325,7 @@ func init() {
 
 func allCLICases() []CLICase {
 	var out []CLICase
-	for _, prog := range []string{"find", "replace", "failing", "missingsrc"} {
+	for _, prog := range []string{"find", "replace", "setreplace", "findreplace", "failing", "missingsrc"} {
 		for _, src := range []bool{false, true} {
 			for jm := 0; jm < 4; jm++ {
 				for _, jf := range []bool{false, true} {
@@ -367,7 +370,7 @@ func runCLICase(t fataler, st *Stats, c CLICase) {
 func TestC18Sample(t *testing.T) {
 	seedNote(t)
 	StartWatchdog("C18", 120*time.Second)
-	st := NewStats("C18", "sample", "random sample of the cross product {find, replace, non-compiling, -src naming no file} x {-com,-src} x {none,-json,-formatted-json,both} x -json-file x -formatted-json-file x -replace-mode {absent,NEW,NOTHING,OVERWRITE,bogus} x -no-output x {one file, glob, glob in a sub-directory, a directory name, glob matching nothing, glob whose literal pieces overlap in a file name, -files absent} over two directory fixtures, run as subprocesses of the freshly built binary; oracle: the library's result on the same directory; non-trivial = >=1 match and at least one JSON sink; distinct by flag vector and fixture")
+	st := NewStats("C18", "sample", "random sample of the cross product {find, replace, definition + replace, find + find + replace, non-compiling, -src naming no file} x {-com,-src} x {none,-json,-formatted-json,both} x -json-file x -formatted-json-file x -replace-mode {absent,NEW,NOTHING,OVERWRITE,bogus} x -no-output x {one file, glob, glob in a sub-directory, a directory name, glob matching nothing, glob whose literal pieces overlap in a file name, -files absent} over two directory fixtures, run as subprocesses of the freshly built binary; oracle: the library's result on the same directory; non-trivial = >=1 match and at least one JSON sink; distinct by flag vector and fixture")
 	defer st.Write()
 	all := allCLICases()
 	rapid.Check(t, func(t *rapid.T) {
@@ -381,7 +384,7 @@ func TestC18Sample(t *testing.T) {
 func TestC18All(t *testing.T) {
 	seedNote(t)
 	StartWatchdog("C18", 120*time.Second)
-	st := NewStats("C18", "all", "exhaustive: all 8960 flag vectors of the cross product x 2 directory fixtures; same oracle")
+	st := NewStats("C18", "all", "exhaustive: all 13440 flag vectors of the cross product x 2 directory fixtures; same oracle")
 	st.Exhaustive = true
 	defer st.Write()
 	nshards := envInt("VERIF_NSHARDS", 1)
